@@ -1175,7 +1175,15 @@ func (v *c17Env) probe() {
 			v.out("P ok")
 		} else {
 			v.out("P failed")
-			if !(strings.HasSuffix(a, " ok") && strings.HasSuffix(b, " fail") && injected != nfail()) {
+			switch {
+			case strings.HasSuffix(a, " ok") && strings.HasSuffix(b, " fail") && injected != nfail():
+				// an injected storage failure hit the probe's own commit
+			case strings.HasSuffix(a, " timeout") || strings.HasSuffix(b, " timeout"):
+				// the probe HAS the lock (its begin succeeded): a write or commit that does not return
+				// within 5 s is the machine (fsync under heavy I/O load), not a database that was not
+				// released; the case is repeated on a stretched time axis and, if that goes on, skipped
+				v.ambiguous("the probe's own write/commit took more than 5 s (%s / %s)", a, b)
+			default:
 				v.fail("fresh read-write transaction could not write and commit: %s / %s", a, b)
 			}
 		}
